@@ -81,6 +81,9 @@ def shapes(vals):
         ('float', vals[1]), ('int', 3), ('np.float64', numpy.float64(vals[2])),
         ('0-d', numpy.array(vals[0])), ('1-d', arr),
         ('Series', pandas.Series(arr, index=[10 + 3 * i for i in range(len(arr))])),
+        # narrow integer containers: the scaled values leave the range of the dtype (101 kPa = 101000 Pa > int16)
+        ('1-d int16', numpy.array([20, 40, 101], dtype='int16')), ('1-d int32', numpy.array([2500, 7, 45], dtype='int32')),
+        ('1-d uint8', numpy.array([200, 3, 45], dtype='uint8')), ('Series int16', pandas.Series(numpy.array([20, 40, 101], dtype='int16'), index=[5, 6, 9])),
     ]
 
 
@@ -89,9 +92,9 @@ def shape_ok(kind, x, y):
         return numpy.ndim(y) == 0 and not isinstance(y, (pandas.Series,))
     if kind == '0-d':
         return numpy.ndim(y) == 0
-    if kind == '1-d':
+    if kind.startswith('1-d'):
         return isinstance(y, numpy.ndarray) and y.shape == x.shape
-    if kind == 'Series':
+    if kind.startswith('Series'):
         return isinstance(y, pandas.Series) and list(y.index) == list(x.index)
     return False
 
@@ -603,7 +606,7 @@ def run(ctx):
         check_refusals(ctx, e)
     check_histories(ctx, envs)
     ctx.cov['domain_sizes'] = {'pressure_reps': 10, 'loading_reps': 27, 'material_reps': 19, 'environments': len(envs),
-                               'materials': len(MATERIALS), 'values': len(vals), 'shapes': 6}
+                               'materials': len(MATERIALS), 'values': len(vals), 'shapes': 10}
     ctx.sample({'family': 'loading', 'env': [envs[0][0], envs[0][1]], 'from': ['molar', 'mmol'], 'to': ['volume_liquid', 'cm3'],
                 'value': vals[0], 'reference': float(ru.c_loading(vals[0], 'molar', 'mmol', 'volume_liquid', 'cm3', envs[0][2]))})
     ctx.sample({'family': 'pressure', 'triple': [['absolute', 'torr'], ['relative%', None], ['absolute', 'MPa']], 'values': vals})
